@@ -42,6 +42,7 @@ PLUGDIR = os.path.join(os.path.dirname(os.path.dirname(os.path.abspath(__file__)
 class _State:
     armed = False
     busy = False
+    sym_back = {}
 
 
 S = _State()
@@ -315,7 +316,9 @@ def _audit(event, args):
         if op == "copyfile" and extra is not None:
             S.last_copy[_real_path(shown)] = _real_path(extra)
         if op == "open-r" and pclass == "target":
-            S.curfile = shown[4:]
+            # (opt-in) a document named through a symbolic link stays "the current file"
+            # while its real file is opened for the write-back
+            S.curfile = S.sym_back.get(shown[4:], shown[4:])
         entry = ["fs", op, pclass, shown, extra]
         if op == "open-r" and S.record_reads and pclass in ("target", "tmp", "work-new"):
             real = _real_path(shown)
@@ -897,6 +900,7 @@ def _child(request, root):
     os.makedirs(S.tmp)
     S.user_files = set((request.get("files") or {}).keys()) | set((request.get("links") or {}).keys()) | set((request.get("symlinks") or {}).keys())
     S.user_dirs = set(request.get("dirs") or [])
+    S.sym_back = {target: rel for rel, target in (request.get("symlinks") or {}).items()} if request.get("curfile_via_symlink") else {}
     for rel in list(S.user_files):
         parts = rel.split("/")[:-1]
         for index in range(1, len(parts) + 1):
